@@ -33,6 +33,11 @@ func c08MapScripts(k *h.Case, g *spec.Gen) *spec.MapScripts {
 	n := r.IntN(9)
 	for i := 0; i < n; i++ {
 		e := &spec.MSEntry{ID: g.Prog.NewID(), Type: types[i], Kind: r.IntN(3)}
+		if i > 0 && r.IntN(8) == 0 {
+			// the same type again: fine for plain entries (the header just lists both); two entries that both
+			// need the label <map>_<TYPE> cannot both be emitted, so the compiler has to reject those
+			e.Type = m.Entries[r.IntN(i)].Type
+		}
 		switch e.Kind {
 		case 0:
 			e.Label = g.Name("Target")
@@ -342,7 +347,7 @@ func runC08(ctx *h.Ctx) int {
 	return ctx.Finish(
 		"mapscripts statements with 0..8 entries mixing plain (T: Label), inline (T { body }) and table (T [ var, value: Label | var, value { body } ]) entries in any order, 0..6 rows, multi-token vars/values, both scopes; inline bodies with control flow, inline text and poryswitch. Oracle: header lists plain+inline entries in source order, then table entries in source order, then .byte 0; each table label defined once, local, rows in source order with the written var/value, then .2byte 0; every inline label (read from the header/table, not from a naming rule) defined once and local; VM trace from each inline label equals the reference run of the body and the VM trace of the same body compiled as a script statement. distinct = entry-kind/row-kind signature",
 		ctx.N(300, 3000),
-		[]string{"map script types are distinct within one statement"})
+		[]string{"a map script type may repeat within one statement (one entry in eight); when two entries both need the label <map>_<TYPE> the compiler has to reject the file (an accepted one would define that label twice)"})
 }
 
 // expandC08 substitutes the two constants the C08 generator defines.
